@@ -35,7 +35,7 @@ package ovmf
 //@   assigns nothing
 //@   sweep[C08]
 //@   alloc 36 * len(firmware) + 4096
-//@   loop 1 invariant 0 <= it && it <= sevMetadata.Sections
+//@   loop 1 invariant 0 <= it && it <= sevMetadata.Sections && alloc <= 36 * it && (ref(metadataSections) == 0 || fresh(metadataSections))
 
 //@ func (*SevData).ExtractFromFirmware
 //@   requires d != nil && len(data) < 2147483648
